@@ -11,7 +11,8 @@ MANIFEST = dict(
     engine="cron",
     technique="Coq proof: the state machine of internal/csm computes the least all-valid state above the start "
               "(generic invariant proof + node lemmas + calendar lemmas), lifted to NextFireTime; extracted model "
-              "and declarative `matches` oracle run against the real trigger",
+              "and declarative `matches` oracle run against the real trigger"
+              " + source-to-Gallina translation of internal/csm's node level proved equivalent to the model (SrcTie)",
     text="Machine-checked: for every well-formed parsed expression, every fixed offset within +-26h (and every zone table), "
          "every prev in [0, MaxInt64], a value returned by the model of NextFireTime is a whole second strictly after prev whose "
          "civil reading in the location satisfies every field of the expression, including L, L-n, nW, LW, nL, n#k, and is a real "
@@ -19,7 +20,8 @@ MANIFEST = dict(
          "extracted to OCaml and compared with the real CronTrigger on grammar-generated expressions with prev placed at month "
          "ends, leap days, year ends, midnight, around fire times and along chains, in UTC and fixed offsets; independently the "
          "declarative `matches` is evaluated on every value the implementation returns; calendar helpers and L/W/# day targets "
-         "are swept over every month.",
+         "are swept over every month."
+         " The node level of internal/csm (util.go, common_node.go, day_node.go: every function) is additionally translated from the Go SOURCE into Gallina on every run (Gen/CsmSrc.v) and proved equal to the model's node functions for all inputs (SrcEquiv.v, Props/SrcTie.v), so a change of these functions breaks a proof obligation even where no sampled input shows it.",
     design_ref="6 C01")
 
 
